@@ -290,6 +290,37 @@ func Specials(prop, cls string) *hk.Result {
 			}
 		}
 	}
+	// IgnoreTypes: values of an ignored type are never filtered - and never
+	// modified in place either, wherever they sit in the payload
+	if cls == "copy" {
+		type ign struct {
+			S string `class:"secret"`
+			B []byte `class:"sensitive"`
+		}
+		type holder struct {
+			Direct *ign
+			Slice  []*ign
+			M      map[string]interface{}
+			I      interface{}
+			Pub    string `class:"public"`
+			Sec    string `class:"secret"`
+		}
+		mkIgn := func() *ign { return &ign{S: "CANARYIGNzq", B: []byte("CANARYIGNzq")} }
+		for _, withIgnore := range []bool{true, false} {
+			count()
+			in := &holder{Direct: mkIgn(), Slice: []*ign{mkIgn()}, M: map[string]interface{}{"k": mkIgn(), "s": "plain"}, I: mkIgn(), Pub: "p", Sec: "CANARYIGNzq"}
+			twin := &holder{Direct: mkIgn(), Slice: []*ign{mkIgn()}, M: map[string]interface{}{"k": mkIgn(), "s": "plain"}, I: mkIgn(), Pub: "p", Sec: "CANARYIGNzq"}
+			f := mk()
+			if withIgnore {
+				f.IgnoreTypes = []reflect.Type{reflect.TypeOf(&ign{})}
+			}
+			_, err := f.Process(ctx, &el.Event{Type: "t", Payload: in})
+			if !reflect.DeepEqual(in, twin) {
+				fail(fmt.Sprintf("IgnoreTypes configured=%v", withIgnore), "Process modified the payload it was given (an object reachable from the input was filtered in place); err=%v", err)
+			}
+			res.Outcome(fmt.Sprintf("special ignore-types %v", withIgnore))
+		}
+	}
 	// rotation payloads are consumed
 	if cls == "leak" {
 		for _, subset := range []int{0, 1, 2, 3, 4, 5, 6, 7} {
